@@ -100,15 +100,18 @@ func box(t, d string) string {
 	return d
 }
 
+// Large values are NOT inlined in the storage-map slab: they live in slabs of their own, which
+// a later transaction's fresh Storage loads lazily (1000-char strings, 500-element arrays; the
+// contract pads C.S / C.R composites with a 1000-char field when x % 4 == 3).
 func strPad(n int64) int {
 	if n%4 == 3 {
-		return 300 // large enough not to be inlined in the parent slab
+		return 1000
 	}
 	return 0
 }
 func arrLen(n int64) int {
-	if n%10 == 9 {
-		return 40
+	if n%5 == 4 {
+		return 500
 	}
 	return 1 + int(n%3)
 }
@@ -128,6 +131,9 @@ func valExpr(v int64, d string) string {
 	case "DS2":
 		return fmt.Sprintf("C.S2(%d)", v)
 	case "DArr":
+		if arrLen(v) > 3 {
+			return fmt.Sprintf("C.mkArr(%d, %d)", v, arrLen(v))
+		}
 		el := make([]string, arrLen(v))
 		for i := range el {
 			el[i] = fmt.Sprint(v)
@@ -715,9 +721,12 @@ func agrees(op Op, want, got Res) bool {
 // generation
 
 type gen struct {
-	rng *lib.Rng
-	or  *oracle // used only to bias choices towards occupied/empty slots and related types
+	rng  *lib.Rng
+	or   *oracle // used only to bias choices towards occupied/empty slots and related types
+	bulk int     // account holding the bulk paths p100..p179 (0 = none): its storage map spans several slabs
 }
+
+const bulkBase, bulkN = 100, 80
 
 func (g *gen) relatedT(d string, allowRes, allowOpt bool) string {
 	var c []string
@@ -744,6 +753,9 @@ func (g *gen) anyT(allowRes, allowOpt bool) string {
 func (g *gen) slot(wantOccupied bool) (int, int) {
 	// try a few times to find a slot with the wanted occupancy in the oracle's working map
 	a, p := 0, 0
+	if g.bulk != 0 && g.rng.Chance(1, 8) {
+		return g.bulk, bulkBase + g.rng.Intn(bulkN)
+	}
 	for i := 0; i < 6; i++ {
 		a, p = 1+g.rng.Intn(nAccounts), g.rng.Intn(nPaths)
 		_, has := g.or.cur[key{a, p}]
@@ -824,6 +836,14 @@ func (g *gen) tx() Tx {
 	t := Tx{Pre: !r.Chance(1, 12), Post: !r.Chance(1, 12)}
 	var failed bool
 	t.Prep, failed = g.ops(r.Intn(5))
+	if r.Chance(1, 3) {
+		// an enumeration as the transaction's very first storage access
+		o := Op{K: "paths", A: 1 + r.Intn(nAccounts)}
+		if r.Bool() {
+			o = Op{K: "foreach", A: o.A, N: lib.Pick(r, []int{1, 2, 200})}
+		}
+		t.Prep = append([]Op{o}, t.Prep...)
+	}
 	if !failed && t.Pre {
 		t.Exec, failed = g.ops(r.Intn(5))
 	} else if r.Bool() {
@@ -836,22 +856,54 @@ func (g *gen) tx() Tx {
 }
 
 func reloadTx() Tx {
+	// storagePaths of every account comes FIRST: a fresh Storage has loaded nothing yet, so the
+	// enumeration must work on slabs that are still on the ledger (values in slabs of their own,
+	// storage maps spanning several slabs); then a full forEachStored, then every slot
 	var ops []Op
+	for a := 1; a <= nAccounts; a++ {
+		ops = append(ops, Op{K: "paths", A: a})
+	}
+	for a := 1; a <= nAccounts; a++ {
+		ops = append(ops, Op{K: "foreach", A: a, N: 200})
+	}
 	for a := 1; a <= nAccounts; a++ {
 		for p := 0; p < nPaths; p++ {
 			ops = append(ops, Op{K: "describe", A: a, P: p})
 		}
-		ops = append(ops, Op{K: "paths", A: a})
 	}
 	return Tx{Script: true, Prep: ops, Pre: true, Post: true, Reload: true}
 }
 
 func (g *gen) history() []Tx {
 	g.or = newOracle()
+	g.bulk = 0
 	n := 4 + g.rng.Intn(9)
+	bulkAt := -1
+	if g.rng.Chance(1, 6) {
+		// one account gets 80 more paths, so that its storage map no longer fits one slab
+		n = 3 + g.rng.Intn(4)
+		bulkAt = g.rng.Intn(2)
+	}
 	var h []Tx
 	for i := 0; i < n; i++ {
-		t := g.tx()
+		var t Tx
+		if i == bulkAt {
+			g.bulk = 1 + g.rng.Intn(nAccounts)
+			g.or.begin()
+			t = Tx{Pre: true, Post: true}
+			for p := bulkBase; p < bulkBase+bulkN; p++ {
+				o := Op{K: "save", A: g.bulk, P: p, V: int64(p % 40), D: "DInt"}
+				if p%16 == 7 {
+					o.D = "DStr" // a few of them large
+					o.V = 3
+				}
+				g.or.apply(o)
+				t.Prep = append(t.Prep, o)
+			}
+			g.or.commit()
+		} else {
+			t = g.tx()
+		}
 		h = append(h, t)
 		// reload check: after every transaction (committed or aborted) and after half of the scripts
 		if !t.Script || g.rng.Bool() {
@@ -1090,9 +1142,9 @@ func main() {
 		Header:   "From CV Require Import C22.Cases.",
 		ElemType: "list obs_tx",
 		CheckFn:  "check_case",
-		PerFile:  6,
+		PerFile:  8,
 	}
-	nhist := 80
+	nhist := 50
 	if *tier == "thorough" {
 		nhist = 1500
 		cw.PerFile = 20
